@@ -242,11 +242,25 @@ func (monC06) PostCall(s *Sim, c *Call) {
 		return
 	}
 	v := t.View()
+	if v.EDS == nil {
+		return
+	}
+	e := s.Store.GetEDS(post.Namespace, v.EDS.Name)
+	if e == nil {
+		return
+	}
 	if v.Role() != "canary" {
+		// Between the two writes of the rollback (status.canary already cleared, spec.template not
+		// yet restored) the condition is the only durable record of the failure.
+		if e.Status.Canary == nil && e.Status.ActiveReplicaSet != post.Name && e.Spec.Strategy.Canary != nil && letterOfTpl(&e.Spec.Template) == letterOfTpl(&post.Spec.Template) &&
+			e.Annotations[edsv1.ExtendedDaemonSetCanaryValidAnnotationKey] != post.Name {
+			s.Violate("C07", "failure-erased", "mid-rollback", "%s erased the Canary-Failed condition of %s while spec.template still is its template: the rollback will never be completed", t.Label(), post.Name)
+			s.Violate("C02", "failure-erased", "mid-rollback", "%s erased the Canary-Failed condition of %s while spec.template still is its template: the failed template stays live", t.Label(), post.Name)
+		}
 		return
 	}
 	// still the canary in the store?
-	if e := s.Store.GetEDS(post.Namespace, v.EDS.Name); e == nil || e.Status.Canary == nil || e.Status.Canary.ReplicaSet != post.Name {
+	if e.Status.Canary == nil || e.Status.Canary.ReplicaSet != post.Name {
 		return
 	}
 	s.Violate("C06", "failed-sticky", "overwritten", "%s wrote a status that drops Canary-Failed=True which was set in the store (the sync had read the replica set before it was marked failed)", t.Label())
